@@ -12,6 +12,7 @@ package rogob
 //@   binds v
 //@   calls Bytes Encode NewEncoder
 //@   params v
+//@   scope v writer
 //@   maypanic
 //@   track call.NewEncoder call.Encoder.Encode call.Buffer.Bytes
 //@   ensures [encodes-the-item-once-into-a-fresh-buffer-and-returns-its-bytes|C18] trace(call.NewEncoder(_), call.Encoder.Encode(res(call.NewEncoder), v), call.Buffer.Bytes(_)) && result0 == res(call.Buffer.Bytes) && result1 == res(call.Encoder.Encode)
@@ -21,6 +22,7 @@ package rogob
 //@   binds v
 //@   calls Decode NewBuffer NewDecoder
 //@   params v
+//@   scope output v
 //@   maypanic
 //@   track call.NewBuffer call.NewDecoder call.Decoder.Decode
 //@   ensures [decodes-the-item-once-and-returns-the-decoder's-error|C18] trace(call.NewBuffer(old(v)), call.NewDecoder(res(call.NewBuffer)), call.Decoder.Decode(res(call.NewDecoder), _)) && result1 == res(call.Decoder.Decode)
